@@ -32,7 +32,7 @@ impl Circuit {
     pub fn new_with_atomic(state_atomic: Arc<AtomicU8>) -> (r: Circuit) ensures r.mirror_id@ == state_atomic.id@ { unimplemented!() }
     #[verifier::external_body]
     pub fn try_acquire<C, Req, Res, E>(&mut self, config: &CircuitBreakerConfig<C>, Tracked(tr): Tracked<&mut Trace<Req, Res, E>>) -> (r: bool)
-        ensures *final(tr) == (Trace { admitted: r, notes: old(tr).notes.push(Note::Gate(r)), ..*old(tr) }), final(self).mirror_id == old(self).mirror_id,
+        ensures *final(tr) == (Trace { admitted: r, notes: old(tr).notes.push(Note::Gate(r)), ev: old(tr).ev.push(Ev::Gate(r)), ..*old(tr) }), final(self).mirror_id == old(self).mirror_id,
     { unimplemented!() }
     #[verifier::external_body]
     pub fn record_success<C, Req, Res, E>(&mut self, config: &CircuitBreakerConfig<C>, duration: Duration, Tracked(tr): Tracked<&mut Trace<Req, Res, E>>)
@@ -77,8 +77,27 @@ impl Mutex<Circuit> {
 #[verifier::external_body]
 pub fn vx_lock<'a, Req, Res, E>(m: &'a Arc<Mutex<Circuit>>, Tracked(tr): Tracked<&mut Trace<Req, Res, E>>) -> (r: &'a mut Circuit)
     requires old(tr).unguarded == 0,
-    ensures *final(tr) == (Trace { notes: old(tr).notes.push(Note::Lock), ..*old(tr) }), r.mirror_id == m.mirror_id,
+    ensures *final(tr) == (Trace { notes: old(tr).notes.push(Note::Lock), ev: old(tr).ev.push(Ev::Lock), ..*old(tr) }), r.mirror_id == m.mirror_id,
 { unimplemented!() }
+/// clock readings of the call body are events of the trace, so that "the measured interval is exactly the inner call" can be stated
+#[verifier::external_body]
+pub fn vx_now<Req, Res, E>(clk: &mut Clock, Tracked(tr): Tracked<&mut Trace<Req, Res, E>>) -> (r: Instant)
+    ensures r.t >= old(clk).now@, final(clk).now@ == r.t, *final(tr) == (Trace { ev: old(tr).ev.push(Ev::ClockRead(r.t as nat)), ..*old(tr) }),
+{ unimplemented!() }
+#[verifier::external_body]
+pub fn vx_elapsed<Req, Res, E>(clk: &mut Clock, since: Instant, Tracked(tr): Tracked<&mut Trace<Req, Res, E>>) -> (r: Duration)
+    ensures final(clk).now@ >= old(clk).now@, r.nanos == (if final(clk).now@ >= since.t { final(clk).now@ - since.t } else { 0 }),
+        *final(tr) == (Trace { ev: old(tr).ev.push(Ev::ClockRead(final(clk).now@)), ..*old(tr) }),
+{ unimplemented!() }
+/// the recorded duration is the clock difference around exactly the inner call: the events right before and right after the
+/// InnerCall/InnerDone pair are the two clock readings, and the recorded nanos are their difference
+pub open spec fn measures_inner_call<Req, Res, E>(tr: Trace<Req, Res, E>) -> bool {
+    let k = tr.call_at as int;
+    &&& k >= 1 && k + 2 < tr.ev.len()
+    &&& tr.ev[k - 1] is ClockRead && tr.ev[k] is InnerCall && tr.ev[k + 1] is InnerDone && tr.ev[k + 2] is ClockRead
+    &&& tr.ev[k + 2]->ClockRead_0 >= tr.ev[k - 1]->ClockRead_0
+    &&& (tr.notes.last() matches Note::Record { nanos, .. } && nanos == tr.ev[k + 2]->ClockRead_0 - tr.ev[k - 1]->ClockRead_0)
+}
 /// failure classifier: a pure function of the result (its closure contract)
 pub struct Classifier<Res, E> { pub p: core::marker::PhantomData<(Res, E)> }
 pub uninterp spec fn classify_spec<Res, E>(c: Classifier<Res, E>, r: Result<Res, E>) -> bool;
@@ -228,6 +247,7 @@ impl<Req, Res, E> CircuitBreaker<Req, Res, E> {
             final(tr).admitted ==> final(tr).calls == 1 && final(tr).done == 1 && final(tr).last_req == Some(req),   // #admitted_call_forwarded_once_unchanged [C20]
             final(tr).admitted ==> count_records(final(tr).notes) == 1 && (final(tr).notes.last() matches Note::Record { failure, .. } && failure == classify_spec(old(self).config.failure_classifier, final(tr).last_done->0)),   // #records_the_classified_outcome_once [C04,C09]
             !final(tr).admitted ==> count_records(final(tr).notes) == 0,   // #rejected_call_records_nothing [C04]
+            final(tr).admitted ==> measures_inner_call(*final(tr)),   // #recorded_duration_is_measured_around_exactly_the_inner_call [C04]
             result matches Ok(v) ==> final(tr).last_done == Some(Ok::<Res, E>(v)),   // #response_returned_unchanged [C20]
             result matches Err(CircuitBreakerError::Inner(e)) ==> final(tr).last_done == Some(Err::<Res, E>(e)),   // #inner_error_returned_unchanged [C20]
             final(self).circuit == old(self).circuit && final(self).state_atomic == old(self).state_atomic && final(self).config == old(self).config,   // #keeps_shared_state [C03]
@@ -280,6 +300,7 @@ impl<Req, Res, E> CircuitBreakerWithFallback<Req, Res, E> {
             final(tr).admitted ==> final(tr).fb_calls == 0 && final(tr).calls == 1 && final(tr).done == 1 && final(tr).last_req == Some(req),   // #admitted_call_forwarded_once_unchanged_no_fallback [C03,C20]
             final(tr).admitted ==> count_records(final(tr).notes) == 1 && (final(tr).notes.last() matches Note::Record { failure, .. } && failure == classify_spec(old(self).config.failure_classifier, final(tr).last_done->0)),   // #records_the_classified_outcome_once [C04,C09]
             !final(tr).admitted ==> count_records(final(tr).notes) == 0,   // #rejected_call_records_nothing [C04]
+            final(tr).admitted ==> measures_inner_call(*final(tr)),   // #recorded_duration_is_measured_around_exactly_the_inner_call [C04]
             final(tr).admitted ==> (match final(tr).last_done->0 { Ok(v) => result == Ok::<Res, CircuitBreakerError<E>>(v), Err(e) => result == Err::<Res, CircuitBreakerError<E>>(CircuitBreakerError::Inner(e)) }),   // #outcome_returned_unchanged [C20]
             final(self).circuit == old(self).circuit && final(self).state_atomic == old(self).state_atomic && final(self).config == old(self).config,   // #keeps_shared_state [C03]
     //@body CircuitBreakerWithFallback::call@Service file=lib
